@@ -161,6 +161,7 @@ type Exec struct {
 	reveal   map[string]bool
 	subst    map[string]int64
 	refs     []Term     // object references known to be distinct from fresh allocations
+	fresh    []Term     // references allocated during this unit
 	entry    *unitEntry // entry state of the unit under verification
 }
 
